@@ -84,6 +84,13 @@ def run(ctx):
                     else:
                         # value outcome: std::string(tmp) exactly, under tmp != nullptr
                         ok_val = fmt(r) in ("functional_cast<std::string>(basic_string{%s, allocator{}})" % var, "basic_string{%s, allocator{}}" % var, "basic_string{%s}" % var)
+                        if not ok_val:
+                            # std::string(tmp, n) with n = char_traits<char>::length(tmp) / strlen(tmp) - the one-argument constructor written out
+                            m2 = re.fullmatch(r"(?:functional_cast<std::string>\()?basic_string\{%s, (\w+)(?:, allocator\{\})?\}\)?" % re.escape(var), fmt(r))
+                            if m2:
+                                ln_name = m2.group(1)
+                                inits = [fmt(ir.unwrap(v0["init"])) for _, _, e0 in f.roots() if e0["expr"].get("k") == "decl" for v0 in e0["expr"]["vars"] if v0["name"] == ln_name and v0.get("init") is not None and (v0.get("type") or "").startswith("const ")]
+                                ok_val = len(inits) == 1 and inits[0] in ("length(%s)" % var, "strlen(%s)" % var, "std::strlen(%s)" % var)
                         ctx.check(ok_val, "R19.1", f, "returns-value-verbatim:" + tag, "a set variable is returned as %s instead of std::string(%s)" % (fmt(r)[:80], var), (f, e.get("ln")))
                         rr, _ = logic.entails(st, ("a", "nonnull(%s)" % var), lg.axioms)
                         ctx.check(rr is True, "R19.1", f, "value-only-when-set:" + tag, "std::string(%s) is constructed although %s may be null" % (var, var), (f, e.get("ln")))
